@@ -83,6 +83,9 @@ var scenarios13 = []scenario13{
 	// calls that run in goroutines of their own with arguments that register work of their own (subqueries, EXISTS)
 	{Name: "separate-async-subquery-arg", SQL: "SELECT a, ASYNC.slow((SELECT MAX(p) AS m FROM n)) AS v, ASYNC.CONCAT((SELECT p FROM n WHERE p > 2), '!') AS w FROM %s"},
 	{Name: "shared-async-subquery-arg", Shared: true, SQL: "SELECT a, ASYNC.CONCAT((SELECT p FROM n), '!') AS w, SPINASYNC.CONCAT((SELECT p FROM n), '?'), (SELECT p FROM n) AS ps FROM %s"},
+	// the ON condition of a PARALLEL join is evaluated by one goroutine per key: an EXISTS in it leaves work for later
+	{Name: "separate-paralleljoin-exists", SQL: "SELECT x.a, y.c FROM %s x PARALLEL JOIN u y ON x.a <= y.c AND EXISTS (SELECT * FROM `<-u` WHERE c > 4)"},
+	{Name: "shared-paralleljoin-exists", Shared: true, SQL: "SELECT x.a, y.c FROM %s x PARALLEL LEFT JOIN u y ON x.a >= y.c AND NOT EXISTS (SELECT * FROM `<-u` WHERE c > 40)"},
 	{Name: "shared-async", Shared: true, SQL: "SELECT a, ASYNC.slow(a) AS v, SPINASYNC.slow(a) FROM %s"},
 }
 
